@@ -342,6 +342,7 @@ class Run:
         self.final: dict | None = None
         self.abort: str | None = None
         self.fn_of: dict[int, Any] = {}
+        self.pre: dict[int, Any] = {}  # id(op) -> event object built before the program started (first execution of that op uses it)
         self.shared: dict[str, Any] = {}  # events published by handlers for sibling handlers to await
         self.W = float(sc.get('W') or (self._max_wait(sc) + 0.5))
         self.max_records = int(sc.get('max_records', 40000))
@@ -546,6 +547,10 @@ class Run:
         opts = opts or {}
         tag = len(self.events) + 1
         kw: dict[str, Any] = {'tag': tag, 'event_timeout': opts.get('timeout')}
+        if opts.get('slack_timeout'):
+            # a timeout that cannot expire in this program (minutes to hours of virtual time; programs last seconds): behaviourally
+            # "no timeout" - recorded as such - but the library takes its timed code paths (not counted into the silence window W)
+            kw['event_timeout'] = opts['slack_timeout']
         if opts.get('parent') == 'self':
             if cur_event is not None:
                 kw['event_parent_id'] = cur_event.event_id  # explicit parent id that happens to be the event being handled
@@ -568,7 +573,7 @@ class Run:
         e = TYPES[t](**kw)
         self.events[tag] = e
         self.tag_by_id[e.event_id] = tag
-        self.rec('mk', ev=tag, t=t, timeout=opts.get('timeout'), xparent=opts.get('parent'), payload=opts.get('payload'), prepath=opts.get('prepath'))
+        self.rec('mk', ev=tag, t=t, timeout=opts.get('timeout'), slack=opts.get('slack_timeout'), age=opts.get('age'), xparent=opts.get('parent'), payload=opts.get('payload'), prepath=opts.get('prepath'))
         return e
 
     # ---------------------------------------------------------------- shared op pieces
@@ -623,7 +628,9 @@ class Run:
             elif k == 'disp':
                 _, t, b, mode, pre = op[:5]
                 opts = op[5] if len(op) > 5 else None
-                c = self.mk(t, opts, event)
+                c = self.pre.pop(id(op), None)
+                if c is None:  # (event classes may be falsy)
+                    c = self.mk(t, opts, event)
                 if not self._dispatch(c, b, by, parent_tag):
                     continue
                 if opts and opts.get('share'):
@@ -804,7 +811,9 @@ class Run:
             elif k == 'disp':
                 _, t, b = op[:3]
                 opts = op[5] if len(op) > 5 else None
-                c = self.mk(t, opts, event)
+                c = self.pre.pop(id(op), None)
+                if c is None:  # (event classes may be falsy)
+                    c = self.mk(t, opts, event)
                 if self._dispatch(c, b, by, parent_tag):
                     if opts and opts.get('share'):
                         self.shared[opts['share']] = c
@@ -1114,6 +1123,10 @@ class Run:
                         t.cancel()
                         res['cancelled'] = op[1]
                 elif k == 'cancel_runloop':
+                    # (op[3]: let that many loop iterations pass first - the cancellation then lands INSIDE the multi-step work that
+                    # starts at this virtual instant, e.g. between the thread hand-offs of a WAL append)
+                    for _y in range(op[3] if len(op) > 3 else 0):
+                        await asyncio.sleep(0)
                     b = self.buses.get(op[1])
                     if b is not None and b._runloop_task is not None and not b._runloop_task.done():
                         t = b._runloop_task
@@ -1204,6 +1217,12 @@ class Run:
             if not d.get('lazy'):
                 self.getbus(i)
         loop = asyncio.get_running_loop()
+        # event objects built ahead of time (before every event they will be dispatched under exists) and handed to the handler
+        # that dispatches them: construction order (and with it the time-ordered event id) is not dispatch order
+        for h in sc.get('handlers', []):
+            for op in h['prog']:
+                if op[0] == 'disp' and len(op) > 5 and op[5] and op[5].get('prebuilt') and not op[5].get('parent'):
+                    self.pre[id(op)] = self.mk(op[1], op[5])
         for ai, ops in enumerate(sc.get('actors', [])):
             t = loop.create_task(self._actor(ai, ops))
             self.task_role[id(t)] = f'A{ai}'
